@@ -19,5 +19,10 @@ CHECKS = {
         "note": "trusted: BFS reference (vmon/oracles/graph.py); label equivariance of Node (names compared for equality only) lets unlabelled shapes with permuted names stand for labelled trees; 8-node trees are sampled, not exhaustive",
         "technique": "invariant monitor hooked on Node.__add__ over exhaustively enumerated insertion histories + differential monitor on the real frame registries",
     },
+    "C11": {
+        "text": "Reference-model monitor: stations created by the real create_station at generated latitudes (incl. +-89.9999, 0), longitudes [-180,360], altitudes [-400, 9000] m are compared with an independent WGS-84 model (reduced-latitude forward formula, Bowring inverse, explicit ENU basis): ECEF position, rest in ITRF, w x r motion in inertial frames; range / azimuth / elevation / range-rate of targets in all octants given in ITRF, WGS84, EME2000, TEME; Range/Azimut/Elevation/Doppler measures over 1 and 2 legs; get_mask against an own piecewise-linear model with the 2pi==0 wrap for tables of 2..20 azimuths and queries incl. negative and > 2pi. Real and constant EOP. Held-on-observed over ~1.5e3 stations x 28 targets (quick).",
+        "note": "trusted: vmon/oracles/geodesy.py (self-checked at start-up), Earth.r / Earth.f read as data; inertial->ITRF maps of the library are C02's subject and are used as given",
+        "technique": "reference-model monitor (independent WGS-84 geodesy and mask model) over generated stations/targets",
+    },
 }
 NOT_APPLICABLE = {}
